@@ -10,7 +10,7 @@ import json, os, shutil, subprocess, sys, time
 
 WT = "/tmp/seedwt"
 TGT = "/tmp/seedwt-target"
-SEEDED = "/verif/seeded"
+SEEDED = os.environ.get("SEEDED_DIR", "/verif/seeded")
 
 
 def sh(cmd, cwd=None, env=None, timeout=3600):
